@@ -154,6 +154,12 @@ fn deviation(type_name: &str, clause: &str, detail: &str) -> Option<&'static str
     if kebab && clause == "container-open" && (detail.contains("Invalid field name") || detail.contains("Invalid enum symbol")) && detail.contains('-') {
         return Some("D-C17-kebab-case-rename-rules-yield-names-outside-the-avro-grammar");
     }
+    // #[avro(repr = "bare_union")] + #[serde(untagged)] + struct variants: serde hands an untagged struct
+    // variant over as a struct named after the ENUM, and the writer looks for a record of that name among
+    // the union's branches, which are named after the variants
+    if type_name.contains("bare_untagged_struct") && matches!(clause, "write_ser-failed" | "container-append_ser-failed") && detail.contains(&format!("Expected Schema::Record(name: {type_name}) in variants")) {
+        return Some("D-C17-untagged-bare-union-struct-variants-cannot-be-written");
+    }
     None
 }
 
@@ -249,7 +255,12 @@ where
             _ => Ok(()),
         };
         record(&mut st.c17, ord, "C17", name, Some(x), r17, format!("value|{name}|{i}"));
-        record(&mut st.c16, ord, "C16", name, Some(x), r, format!("{name}|{i}"));
+        match &r {
+            // the derived schema does not fit the type's serde representation (a recorded C17 finding): the
+            // serde path has nothing to agree with, no C16 verdict
+            Err((c, d)) if deviation(name, c, d).is_some() => st.c16.outcome("derived-schema-does-not-fit-the-type(C17 finding, no C16 verdict)"),
+            _ => record(&mut st.c16, ord, "C16", name, Some(x), r, format!("{name}|{i}")),
+        }
     }
     // ---- C17: through a container file
     let r = guarded(|| -> Result<(), (String, String)> {
